@@ -41,7 +41,7 @@ reg("L8a", flow.rule_L8a, 8)
 reg("L8c", flow.rule_L8c, 10)
 reg("L9", flow.rule_L9, 1)
 
-for _f, _n in (("N1", 10), ("N2", 10), ("N3", 10), ("N4", 10), ("N5", 8), ("N6", 6), ("N7", 6), ("N8", 8), ("N9", 20), ("N10", 2), ("N11", 2), ("X1", 10)):
+for _f, _n in (("N1", 10), ("N2", 10), ("N3", 10), ("N4", 10), ("N5", 8), ("N6", 6), ("N7", 6), ("N8", 8), ("N9", 20), ("N10", 2), ("N11", 2), ("N12", 1), ("X1", 10)):
     reg(_f, getattr(names, "rule_" + _f), _n)
 
 for _f, _n in (("P1", 10), ("P2", 6), ("P3", 4), ("P4", 8), ("P5", 15), ("P6", 8), ("P7", 12), ("P8", 2)):
@@ -158,7 +158,7 @@ PROPS = {
               "exponential-backtracking construct - nested unbounded repeats or overlapping alternatives under a repeat (T5); a failed block read ends the data iterator with "
               "StopIteration (S9: an empty block instead would be re-requested forever)." + NOT + "complexity constants; loops inside construct/numpy; peak memory.",
               ["sector_length/buffer_length attributes are positive (constructor sites pass positive constants)", "the element parent relation is a tree"]),
-    "C14": _p(["I1", "I5", "I4", "L1t", "L4", "L2", "S1", "S2", "L9", "L8r", "I9", "I11"],
+    "C14": _p(["I1", "I5", "I4", "L1t", "L4", "L2", "S1", "S2", "L9", "L8r", "I9", "I11", "N12"],
               "Decides: in the AKAI file-table loop the handler re-seeks to entry start + entry size and continues; in lazy file realisation the error path appends nothing and continues; "
               "the four Roland sample references and tolerant lists skip a failing element; Roland records are addressed absolutely (Computed/Pointer/Lazy only) so element i cannot shift "
               "element j (I1, L4); 24-byte file entries / record layouts (L1t, L2); out-of-range start sectors raise the exception the loop swallows (S1, S2); the file table is scanned to the "
